@@ -482,6 +482,10 @@ void expect_(TestReporter* test_reporter, const char *function, const char *test
         Constraint * constraint = cgreen_vector_get(expectation->constraints, i);
         if (constraint && constraint->type == CGREEN_CALL_COUNTER_CONSTRAINT) {
             expectation->time_to_live = (int)constraint->expected_value.value.integer_value;
+            if (expectation->time_to_live <= 0) {
+                /* expected not to be called at all, so it must not serve any call */
+                expectation->time_to_live = -UNLIMITED_TIME_TO_LIVE;
+            }
             break;
         }
     }
